@@ -171,8 +171,9 @@ type fileScn struct {
 // reloadWatch collects the watcher's reload events per file name.
 type reloadWatch struct {
 	mu   sync.Mutex
-	ch   map[string]chan string
-	busy map[string]bool
+	ch     map[string]chan string
+	busy   map[string]bool
+	missed int
 }
 
 func newReloadWatch() *reloadWatch {
@@ -305,7 +306,10 @@ func (s *fileScn) step(p int, op string, whole []fline, added []fline) {
 	s.watch.mu.Lock()
 	c := s.watch.ch[fn]
 	s.watch.mu.Unlock()
-	limit := 10 * time.Second
+	limit := 5 * time.Second
+	if s.watch.missed >= 2 {
+		limit = time.Second // the watcher of this process is evidently not reloading; do not wait long again
+	}
 	if bytes.Equal(now, old) {
 		// nothing changed on disk (e.g. truncating an empty file): a reload may or may not
 		// come, and is harmless; none is required
@@ -316,6 +320,7 @@ func (s *fileScn) step(p int, op string, whole []fline, added []fline) {
 		s.t.Emit(Ev{"ev": "reload", "p": p, "res": res})
 	case <-time.After(limit):
 		if !bytes.Equal(now, old) {
+			s.watch.missed++
 			s.t.Emit(Ev{"ev": "noreload", "p": p})
 		}
 		return
